@@ -66,7 +66,31 @@ def _c05_torn_frame(failure):
         return False
     if f not in (611, 612):
         return False
-    return len(a) >= 3 and len(a[0]) >= 3 and a[0][2] != 0 and len(a[2]) > 0
+    if not (len(a) >= 3 and len(a[0]) >= 3 and a[0][2] != 0 and len(a[2]) > 0):
+        return False
+    # the recorded finding needs a cut INSIDE a frame: a cut on a frame boundary leaves no partial progress
+    # behind and must work (DESIGN 6)
+    b, pos, bounds = a[1], 1, {0, 1}
+    def vi(p):
+        if p >= len(b):
+            return None
+        n = 1 << (b[p] >> 6)
+        if p + n > len(b):
+            return None
+        v = b[p] & 0x3f
+        for x in b[p + 1:p + n]:
+            v = (v << 8) | x
+        return v, n
+    while pos < len(b):
+        t = vi(pos)
+        if not t:
+            break
+        l = vi(pos + t[1])
+        if not l:
+            break
+        pos += t[1] + l[1] + l[0]
+        bounds.add(pos)
+    return any(c not in bounds for c in a[2])
 
 
 # class predicates for open known findings
@@ -181,7 +205,7 @@ PROPS["C11"] = {
 PROPS["C12"] = {
     "title": "HTTP/3 and WebTransport stream rules are enforced with the prescribed error",
     "corr_modules": ["StreamTSC", "WireC", "FrameC", "E2C"],
-    "suites": [("e1", "typestate", ["debug"]), ("e1", "settings", ["debug"]), ("e2", "control", ["debug"]), ("e2", "unknown_uni", ["debug"]), ("e1", "sheader", ["debug"]), ("e2", "client", ["debug"]), ("e2", "requests", ["debug"]), ("e2", "foreign", ["debug"])],
+    "suites": [("e1", "typestate", ["debug"]), ("e1", "settings", ["debug"]), ("e2", "control", ["debug"]), ("e2", "unknown_uni", ["debug"]), ("e1", "sheader", ["debug"]), ("e2", "client", ["debug"]), ("e2", "requests", ["debug"]), ("e2", "foreign", ["debug"]), ("e1", "frame", ["debug"])],
     "technique": PROOF_TECH,
     "level_text": "theorems: every accept/reject verdict of every typestate for every frame is the one of an independently written specification table (RFC 9114 / WT draft) with a prescribed code; error codes equal the registry; control-stream position rules, duplicated/closed critical streams by theorems on the runner model; tie: all frame sequences to depth 3 (quick) / 4 (thorough) over the property's alphabet through the real typestates",
     "level_note": CODEC_NOTE + "; the runner functions (private driver code) are hand-transcribed and exercised end to end by the wire engine",
@@ -219,7 +243,7 @@ PROPS["C05"] = {
 PROPS["C07"] = {
     "title": "Streams are independent: a stalled stream never blocks the others",
     "corr_modules": ["E2C", "E3C"],
-    "suites": [("e2", "stall", ["debug"]), ("e2", "credit", ["debug"]), ("e2", "trace", ["debug"])],
+    "suites": [("e2", "stall", ["debug"]), ("e2", "credit", ["debug"]), ("e2", "trace", ["debug"]), ("e2", "backlog", ["debug"])],
     "technique": PROOF_TECH,
     "level_text": "theorems on the hand-off transition system for every capacity, every number of stalled streams and every interleaving: no stalled stream disables the worker, another stream's task or the application; a healthy stream is delivered by a bounded plan using only its own and worker/app steps; the pinned design is refuted (one stalled stream blocks all); tie: k stalled streams of either kind at each stall position followed by healthy ones against the running driver",
     "level_note": CODEC_NOTE + WIRE_NOTE + "; liveness is bounded steps of the model under its scheduler; tokio wake-ups are observed, not modelled",
